@@ -277,6 +277,8 @@ POOL_KEYS = {
                                                  "(two pools for one host, or a pool above its size)"),
     "NoOrphanPool": ("host-pool-orphaned", "connections to a host stay open although the host's pool is no longer in the session's map "
                                            "(a pool that removeHost / Session.Close can no longer reach)"),
+    "Replenished": ("pool-not-replenished", "an open pool stayed below its size although queries kept arriving (Pick) and connects succeed: a "
+                                            "connection lost during a fill / a partly failed fill is never made up for"),
     "FillEnds": ("pool-filling-never-ends", "pool.filling stayed true after the fill had finished: every later fill() returns at once, "
                                             "a lost connection is never replaced"),
     "NoSelfDeadlock": ("pool-lock-deadlock", "a pool method waits for pool.mu while it holds it (closing a connection whose socket "
@@ -295,6 +297,8 @@ DEFECT_EXHIBITS = [
 ]
 
 POOL_EXHIBITS = [
+    # Pick() that asks for a fill only when the pool is empty: a pool that lost a connection during a fill stays short
+    ("MC_Pool_x_pickempty.cfg", "temporal"),
     # connectMany that returns at the first failure: a straggler lands after the next fill -> more than Size connections
     ("MC_Pool_x_nojoin.cfg", "SizeBound"),
     # a socket Close() error re-enters HandleError: closing under pool.mu must be exhibited as a self-deadlock
@@ -367,6 +371,7 @@ def run(ctx):
 
     bg = []
     bg.append(pool.submit(must, "MC_Pool", "MC_Pool_quick.cfg", workers=W or 4, timeout=600, extra=["-lncheck", "final"]))
+    bg.append(pool.submit(must, "MC_Pool", "MC_Pool_pick.cfg", workers=W or 2, timeout=600, extra=["-lncheck", "final"]))
     bg.append(pool.submit(must, "MC_Pool", "MC_Pool_size1.cfg", workers=W or 2, timeout=600, extra=["-lncheck", "final"]))
     bg.append(pool.submit(must, "Lifecycle", "Lifecycle_fixed.cfg", workers=W or 6, timeout=600))
     bg.append(pool.submit(must, "Lifecycle", "Lifecycle_fixed_live.cfg", workers=W or 4, timeout=900, extra=["-lncheck", "final"]))
@@ -767,6 +772,9 @@ def run(ctx):
         note(r, cfg)
     for f, (cfg, expect) in zip(exh_pool2, POOL_EXHIBITS):
         r, _ = f.result()
+        if expect == "temporal" and (r.violated or "").startswith("temporal"):
+            note(r, cfg)
+            continue
         if r.violated != expect:
             raise vf.Inconclusive("model %s should exhibit %s but gave violated=%s error=%s" % (cfg, expect, r.violated, r.error))
         note(r, cfg)
